@@ -99,7 +99,7 @@ def run(res, tier):
             c_e = f(e.coef_.T)
             d = float(np.max(np.abs(e.coef_ - reg.coef_)))
             well = np.linalg.cond(Psi) < 30
-            if c_u > c_e + 1e-4 * max(1e-3, abs(c_e)) or (well and d > 5e-3 * max(1.0, float(np.max(np.abs(e.coef_))))):
+            if c_u > c_e + 1e-3 * max(1e-3, abs(c_e)) or (well and d > 5e-3 * max(1.0, float(np.max(np.abs(e.coef_))))):
                 info = dict(what='with pure Tikhonov regularisation the result does not coincide with Edmd',
                             cost_edmd=c_e, coef_difference=d)
         else:
@@ -139,7 +139,7 @@ def run(res, tier):
                 c_u = doc_cost(reg.coef_.T, Psi, Thp, alpha, 0.0, 'tikhonov', False)
                 d = float(np.max(np.abs(e.coef_ - reg.coef_)))
                 well = np.linalg.cond(Psi) < 30
-                if c_u > c_e + 1e-4 * max(1e-3, abs(c_e)) or (well and d > 5e-3 * max(1.0, float(np.max(np.abs(e.coef_))))):
+                if c_u > c_e + 1e-3 * max(1e-3, abs(c_e)) or (well and d > 5e-3 * max(1.0, float(np.max(np.abs(e.coef_))))):
                     bad.append(dict(what='LmiEdmd with this inv_method does not return the Edmd optimum under pure Tikhonov '
                                          'regularisation', inv_method=inv, alpha=alpha, cost=c_u, cost_edmd=c_e,
                                     coef_difference=d, X=X.tolist()))
